@@ -108,6 +108,7 @@ func c20Shard(t Tier, shard, n int) (run *report.Run) {
 	cases := buildShard(e, maxLen, shard, n)
 	cases = append(cases, variantCases(e, shard, n)...) // unusual genesis contents (zero timestamps, shared ids, ...)
 	cases = append(cases, upgradeCases(e, shard, n)...)
+	cases = append(cases, cleanupCases(e, shard, n)...)
 	queries, execs := 0, 0
 	capHit := false
 	for ci, c := range cases {
